@@ -205,4 +205,58 @@ def serve (rt : Int → Nat → Int → RT) (tr : Transport) (st : Nat) (d : Int
   | .response s t => (s, t)
   | .failed e t => (errorStatus e, t)
 
+/-! ### The handler `ServeHTTP` builds, and the whole response -/
+
+/-- The three branches of the `switch` in `HTTPProxy.ServeHTTP`. -/
+inductive Path where
+  | websocket   -- `Upgrade: websocket`: a raw tunnel (`newWSHandler`), no `http.Transport` involved — outside C19
+  | sse         -- `Accept: text/event-stream` exactly: reverse proxy with `proxy.flushinterval`
+  | default     -- everything else: reverse proxy with `proxy.globalflushinterval`
+deriving DecidableEq, Repr
+
+/-- `case upgrade == "websocket" || upgrade == "Websocket"`, `case accept == "text/event-stream"`, `default`. -/
+def handlerPath (upgrade accept : String) : Path :=
+  if upgrade = "websocket" ∨ upgrade = "Websocket" then .websocket
+  else if accept = "text/event-stream" then .sse else .default
+
+/-- What `proxy.newHTTPProxy(target, tr, flush)` is built from. -/
+structure HTTPHandler where
+  transport : Transport
+  flush : Int
+deriving Repr
+
+/-- The handler of a request: both reverse-proxy branches receive the one selected transport `tr`; they differ
+in the flush interval only. (Regenerated facts: the second argument of both `newHTTPProxy` calls is `tr`, `tr`
+is only ever assigned `p.Transport`, `t.Transport`, `p.InsecureTransport`, and package proxy contains no other
+construction or copy of an `http.Transport`.) -/
+def handlerFor (p : Proxy) (flushInterval globalFlushInterval : Int) (t : Target) : Path → Option HTTPHandler
+  | .websocket => none
+  | .sse => some ⟨selectTransport p t, flushInterval⟩
+  | .default => some ⟨selectTransport p t, globalFlushInterval⟩
+
+/-- What the client finally has: status, when the headers were there, whether the body is complete, and when
+the response ended. -/
+structure Served where
+  status : Nat
+  headerAt : Int
+  complete : Bool
+  doneAt : Int
+deriving DecidableEq, Repr
+
+/-- The whole exchange. After headers that came in time the upstream streams its body for `body` more
+nanoseconds. `deadline` is a deadline on the request context (`none` = the server's own request context, which
+is what `ServeHTTP` passes on: regenerated fact `serveHTTP_keeps_the_request_context`); a context that ends
+mid-body aborts the copy and the client sees a truncated response. The response-header timeout itself does not
+limit the body (net/http: it "does not include the time to read the response body"). -/
+def serveFull (rt : Int → Nat → Int → RT) (tr : Transport) (deadline : Option Int) (st : Nat) (d body : Int) : Served :=
+  match rt tr.responseHeaderTimeout st d with
+  | .failed e t => ⟨errorStatus e, t, true, t⟩
+  | .response s t =>
+    match deadline with
+    | none => ⟨s, t, true, t + body⟩
+    | some D => if t + body ≤ D then ⟨s, t, true, t + body⟩ else ⟨s, t, false, if D < t then t else D⟩
+
+/-- `ServeHTTP` hands `h.ServeHTTP(rw, r)` the request it received: no derived context, no deadline. -/
+def requestDeadline : Option Int := none
+
 end Fabio.Model.C19
